@@ -1,7 +1,8 @@
 """C19 -- saving does not disturb the caller's objects and is repeatable."""
 import random
 from harness import tree as T, fileabs as FA
-from harness.tree import run_all, emit, COQ_IMPORTS, CASETY, CHECKFN
+from harness.tree import COQ_IMPORTS, CASETY, CHECKFN
+from harness import classes as K, core
 
 PROP = 'C19'
 TARGETS = ['Props/C19.vo', 'Corr/XTree.vo']
@@ -87,10 +88,41 @@ def cases(seed, tier):
                 if steps[-1]['emdpath'] is None:
                     del steps[-1]['emdpath']
         out.append({'tops': tops, 'steps': steps})
-    return out
+    # composition (Custom) nodes: the nodes held in attributes are caller objects too (this stream comes last: see emit)
+    return out + [K.gen_c19_custom(rng) for _ in range(n // 4)]
+
+
+def _run_custom(args):
+    c, scratch = args
+    try:
+        return K.run_c19_custom(c, scratch)
+    except BaseException:
+        import traceback
+        return [{'harness_error': traceback.format_exc()[-800:]}]
+
+
+def run_all(cases, scratch):
+    nt = sum(1 for c in cases if c.get('kind') != 'custom')
+    return T.run_all(cases[:nt], scratch) + core.pmap(_run_custom, [(c, scratch) for c in cases[nt:]])
+
+
+def emit(cases, results):
+    nt = sum(1 for c in cases if c.get('kind') != 'custom')
+    return T.emit(cases[:nt], results[:nt])
 
 
 def oracle(case, obs):
+    if case.get('kind') == 'custom':
+        where = f"save of a Custom node (attributes {[(a['attr'], a['name'], a['kind']) for a in case['attrs']]}, mode={case['mode']}, raised={obs['raised']})"
+        if not obs['unchanged']:
+            return {'key': 'custom-attribute-nodes-changed' + ('-on-failure' if obs['raised'] else ''), 'what': where + f": caller objects changed: {obs.get('diff')}"}
+        if obs.get('second_unchanged') is False:
+            return {'key': 'custom-attribute-nodes-changed', 'what': where + ': changed by the second save'}
+        if obs.get('same_files') is False:
+            return {'key': 'repeat-save-differs', 'what': where + ': saving the same Custom node twice to fresh paths gives different content'}
+        if obs['raised'] is None and 'second_raised' in obs:
+            return {'key': 'second-save-raised', 'what': where + f": {obs['second_raised']}"}
+        return None
     for j, (st, o) in enumerate(zip(case['steps'], obs)):
         if st['op'] != 'save':
             continue
@@ -113,12 +145,14 @@ def oracle(case, obs):
 
 
 def pick_smallest(cases_, idxs):
-    return min(idxs, key=lambda i: len(cases_[i]['steps']))
+    return min(idxs, key=lambda i: len(cases_[i]['steps']) if 'steps' in cases_[i] else len(cases_[i]['attrs']))
 
 
 def nontrivial(cases_, results):
     s = set()
     for c, r in zip(cases_, results):
+        if c.get('kind') == 'custom':
+            s.add(repr(c)); continue
         for st, o in zip(c['steps'], r):
             if st['op'] == 'save' and (st.get('input') or st.get('readd') or o['raised']):
                 s.add(repr(c['tops'])[:100] + repr(st))
@@ -126,12 +160,15 @@ def nontrivial(cases_, results):
 
 
 def samples(cases_, results):
-    return [{'steps': c['steps'][:4]} for c in cases_[:3]]
+    return [{'steps': c['steps'][:4]} for c in cases_[:3]] + [cases_[-1]]
 
 
 def distribution(cases_, results):
-    d = {'saves': 0, 'raised': 0, 'inputs': {}}
+    d = {'saves': 0, 'raised': 0, 'inputs': {}, 'custom_saves': 0, 'custom_raised': 0}
     for c, r in zip(cases_, results):
+        if c.get('kind') == 'custom':
+            d['custom_saves'] += 1; d['custom_raised'] += (not isinstance(r, list) and r['raised'] is not None)
+            continue
         for st, o in zip(c['steps'], r):
             if st['op'] == 'save':
                 d['saves'] += 1; d['raised'] += o['raised']
